@@ -324,16 +324,19 @@ def idnum(s):
     return None if s is None else int(str(s).split("-")[1])
 
 
+# Token shapes are those met in practice (seeded change C19-10 mangled only tokens that START with one of the characters
+# of "Bearer ": a JWT "eyJ...", hexadecimal keys starting with a / e, a token with a capital B): the stored
+# Authorization header must give back exactly the token whatever its first characters are.
 HANDLERS = [
-    ("sim:alpha", "https://alpha.test", "tokA", None),
-    ("qpu:beta", "https://beta.test", "tokB", {"https": "http://proxy.test:3128"}),
+    ("sim:alpha", "https://alpha.test", "eyJhbGciOiJIUzI1NiJ9.tokA.sig", None),
+    ("qpu:beta", "https://beta.test", "ae4b71ear-tokB", {"https": "http://proxy.test:3128"}),
     ("sim:gamma", "https://gamma.test/api", "tokC", None),
     # same platform name and URL as an entry above, other credentials / route (a renewed token, a second account,
     # a changed proxy configuration): distinct platform metadata all the same
-    ("sim:alpha", "https://alpha.test", "tokA-renewed", None),
-    ("qpu:beta", "https://beta.test", "tokB", {"https": "http://other-proxy.test:8080"}),
+    ("sim:alpha", "https://alpha.test", "Bearer-like_rea-tokA-renewed", None),
+    ("qpu:beta", "https://beta.test", "ae4b71ear-tokB", {"https": "http://other-proxy.test:8080"}),
     # the bystander group's handler: platform and URL of entry 0, a third token
-    ("sim:alpha", "https://alpha.test", "tokT", None),
+    ("sim:alpha", "https://alpha.test", "rBe_tokT", None),
 ]
 N_GROUP_HANDLERS = 5       # the histories' own jobs draw from the first five
 TWIN_HD = 5
